@@ -117,6 +117,7 @@ type Node struct {
 	Req      *TestSpec // Required(opts...) ; for pointers: NotNil(opts...)
 	Def      *Leaf     // primitives
 	DefSlice []Leaf    // slices: Default([]T{...}); nil = none
+	GlobalCo  bool     // Coercer/CoerceTo describe the global conf.Coercers override in effect, not a WithCoercer option
 	ExtraStrs []string // further strings the oracle tables must cover (builder chains: every Default/Catch value)
 	HasDef   bool
 	Catch    *Leaf
